@@ -90,7 +90,8 @@ Lemma C08_alternation_thm tr :
   admits base0 tr = true -> at_every_position tr (fun b te => forall m, ~ In 801 (mon_C08 b m te) /\ ~ In 802 (mon_C08 b m te)).
 Proof.
   intros A pre te post E. unfold brun.
-  destruct (admitted_prefix_cb tr base0 CB0 A pre te post E) as [C G]. apply guards_split in G. destruct G as [G _]. intros m.
+  destruct (admitted_prefix_cb tr base0 CB0 A pre te post E) as [C G]. pose proof (guards_late _ _ G) as GL.
+  apply guards_split in G. destruct G as [G _]. intros m.
   apply C08_alternation_local; assumption.
 Qed.
 
